@@ -239,6 +239,7 @@ type c10Run struct {
 	step    int
 	sub     int
 	steps   []string
+	hcases  []string // health evaluations of this history (c10_health_test.go)
 	nontriv bool
 	fp      strings.Builder
 	owners  map[string]int
@@ -463,6 +464,7 @@ func (r *c10Run) probeLev(ctx sdk.Context, q c10Req) (pr c10Probe) {
 	}
 	liqGuard, stopGuard := false, false
 	if herr == nil {
+		r.healthLev(pc, pos, h)
 		// the guard value is NOT taken from the function under test alone: the same quantity from first principles (exit value of the
 		// committed shares over principal + interest charged - interest paid) must agree, and it is the one the verdict is judged by
 		if hi, ok := lIndependentLevHealth(r.w, pc, pos); ok {
@@ -562,7 +564,9 @@ func (r *c10Run) probePerp(ctx sdk.Context, q c10Req) (pr c10Probe) {
 		liqPool = pool
 		var h sdkmath.LegacyDec
 		var herr error
-		if c10Safely(func() { h, herr = k.GetMTPHealth(pc, mtp, ammPool, USDC) }) {
+		hpanic := c10Safely(func() { h, herr = k.GetMTPHealth(pc, mtp, ammPool, USDC) })
+		r.healthPerp(pc, mtp, ammPool, h, herr, hpanic)
+		if hpanic {
 			herr = fmt.Errorf("panic")
 		}
 		if herr == nil {
@@ -1031,7 +1035,9 @@ func (r *c10Run) healthOfOpened2(ctx sdk.Context, perp bool, owner sdk.AccAddres
 		// what a liquidation request evaluates next: the interest accrued up to now is booked first (a no-op right after an
 		// open that booked it itself)
 		c10Safely(func() { r.w.App.PerpetualKeeper.UpdateMTPBorrowInterestUnpaidLiability(pc, &mtp) })
-		if c10Safely(func() { h, err = r.w.App.PerpetualKeeper.GetMTPHealth(pc, mtp, ammPool, USDC) }) || err != nil {
+		hpanic := c10Safely(func() { h, err = r.w.App.PerpetualKeeper.GetMTPHealth(pc, mtp, ammPool, USDC) })
+		r.healthPerp(pc, mtp, ammPool, h, err, hpanic)
+		if hpanic || err != nil {
 			return "", p, h, stored, false
 		}
 	} else {
@@ -1043,6 +1049,7 @@ func (r *c10Run) healthOfOpened2(ctx sdk.Context, perp bool, owner sdk.AccAddres
 		if c10Safely(func() { h, err = r.w.App.LeveragelpKeeper.GetPositionHealth(pc, pos) }) || err != nil {
 			return "", p, h, stored, false
 		}
+		r.healthLev(pc, pos, h)
 		// the health an open is judged by is NOT the keeper's alone: exit value of the shares committed at the position address over the
 		// debt record must agree with it, and is the value used
 		if hi, ok := lIndependentLevHealth(r.w, pc, pos); ok {
@@ -1619,7 +1626,7 @@ func c10RunHistory(t *testing.T, col *Collector, h c10Hist) {
 	r.step, r.sub = len(h.Ops), 0
 	r.block(5)
 	if len(r.steps) > 0 {
-		col.Case(h.ID, fmt.Sprintf("mkC10 %d [\n  %s]", h.ID, strings.Join(r.steps, ";\n  ")))
+		col.Case(h.ID, fmt.Sprintf("mkC10h %d [\n  %s]\n  [%s]", h.ID, strings.Join(r.steps, ";\n  "), strings.Join(r.hcases, ";\n   ")))
 	}
 	col.mu.Lock()
 	for k, v := range r.cnt {
@@ -1657,8 +1664,8 @@ func TestC10(t *testing.T) {
 		h.ID = i
 		c10RunHistory(t, col, h)
 	})
-	header := "From Coq Require Import ZArith List Bool.\nFrom Elys Require Import Base.Res Models.CloseGuard Run.CloseGuardRun.\nImport ListNotations.\nOpen Scope Z_scope.\n"
-	footer := "Definition M := Eval vm_compute in mismatches cases.\nPrint M.\n"
+	header := "From Coq Require Import ZArith List Bool.\nFrom Elys Require Import Base.Res Models.CloseGuard Run.CloseGuardRun Models.Health Run.HealthRun.\nImport ListNotations.\nOpen Scope Z_scope.\n"
+	footer := "Definition M := Eval vm_compute in mismatches_h cases.\nPrint M.\n"
 	col.Finish(t, len(hists), header, footer, 6)
 }
 
